@@ -32,6 +32,27 @@ def words_of(G, path, name):
         _unl(f"buidl/{fn}: {e}")
 
 
+def text_of(G, path, name):
+    """code points of the word-list file exactly as `f.read()` returns them"""
+    fn, _, loc = wordlist_call(G, path, name)
+    try:
+        with open(f"{G.repo}/buidl/{fn}", "r") as f:
+            return [ord(c) for c in f.read()], f"buidl/{fn} ({loc})"
+    except Exception as e:
+        _unl(f"buidl/{fn}: {e}")
+
+
+CHUNK = 2800
+
+
+def text_chunks(G, file, name, path, wl, count):
+    for k in range(count):
+        def f(k=k):
+            cps, loc = text_of(G, path, wl)
+            return (cps[k * CHUNK:(k + 1) * CHUNK] if k < count - 1 else cps[k * CHUNK:]), loc
+        yield G.nats(file, f"{name}{k}", f)
+
+
 def ints(G, path, qual):
     return [v for v, _ in G.int_consts(path, qual)], f"{path}:{G.node(path, qual).lineno}"
 
@@ -43,6 +64,10 @@ def nth_int(G, path, qual, k, expect=None):
 
 def items(G):
     yield G.strs("Bip39Words", "bip39Words", lambda: words_of(G, M, "BIP39"))
+    # the file text as code points, in chunks (each chunk stays well below gen_lean's long-text threshold);
+    # the last chunk takes whatever remains
+    for it in text_chunks(G, "Bip39Text", "bip39Text", M, "BIP39", 6):
+        yield it
     yield G.nat("Mnemonic", "bip39Count", lambda: (lambda t: (t[1], t[2]))(wordlist_call(G, M, "BIP39")))
 
     # WordList.__init__: `if len(word) > 4: lookup[word[:4]] = i`
